@@ -441,3 +441,461 @@ def rand_quadratic(rng, dim, strictly=False):
              for i in range(dim)]
     b = [Fraction(rng.randint(-3, 3), rng.choice([1, 2])) for _ in range(dim)]
     return Quadratic(A, b, Fraction(rng.randint(-2, 2)))
+
+
+# ----------------------------------------------------------------------------- semantic check on the implementation
+class Valuation(object):
+    """values of leaf points (vectors of Fractions) and leaf expressions (Fractions), keyed by object identity"""
+
+    def __init__(self, dim):
+        self.dim = dim
+        self.p, self.x = {}, {}
+
+    def known_p(self, leaf):
+        return id(leaf) in self.p
+
+    def set_p(self, leaf, v):
+        self.p[id(leaf)] = [Fraction(a) for a in v]
+
+    def set_x(self, leaf, v):
+        self.x[id(leaf)] = Fraction(v)
+
+    def unknown_points(self, pt):
+        return [k for k, c in pt.decomposition_dict.items() if id(k) not in self.p and to_fraction(c) != 0]
+
+    def unknown_exprs(self, e):
+        out = []
+        for k, c in e.decomposition_dict.items():
+            if type(k).__name__ == "Expression" and id(k) not in self.x and to_fraction(c) != 0:
+                out.append(k)
+        return out
+
+    def point(self, pt):
+        acc = [Fraction(0)] * self.dim
+        for k, c in pt.decomposition_dict.items():
+            c = to_fraction(c)
+            if c != 0:
+                acc = vadd(acc, vscal(c, self.p[id(k)]))
+        return acc
+
+    def expr(self, e):
+        acc = Fraction(0)
+        for k, c in e.decomposition_dict.items():
+            c = to_fraction(c)
+            if c == 0:
+                continue
+            if isinstance(k, tuple):
+                acc += c * dot(self.p[id(k[0])], self.p[id(k[1])])
+            elif type(k).__name__ == "Expression":
+                acc += c * self.x[id(k)]
+            else:
+                acc += c
+        return acc
+
+    def expr_ready(self, e):
+        for k, c in e.decomposition_dict.items():
+            if to_fraction(c) == 0:
+                continue
+            if isinstance(k, tuple):
+                if id(k[0]) not in self.p or id(k[1]) not in self.p:
+                    return False
+            elif type(k).__name__ == "Expression" and id(k) not in self.x:
+                return False
+        return True
+
+    def solve_point(self, pt, target):
+        """give a value to the single unknown leaf of pt so that pt evaluates to target"""
+        unk = self.unknown_points(pt)
+        if len(unk) != 1:
+            return False
+        leaf = unk[0]
+        c = to_fraction(pt.decomposition_dict[leaf])
+        rest = [Fraction(0)] * self.dim
+        for k, ck in pt.decomposition_dict.items():
+            ck = to_fraction(ck)
+            if k is not leaf and ck != 0:
+                rest = vadd(rest, vscal(ck, self.p[id(k)]))
+        self.set_p(leaf, vscal(1 / c, vsub(target, rest)))
+        return True
+
+    def solve_expr(self, e, target):
+        unk = self.unknown_exprs(e)
+        if len(unk) != 1 or not all(id(k[0]) in self.p and id(k[1]) in self.p
+                                    for k in e.decomposition_dict if isinstance(k, tuple)):
+            return False
+        leaf = unk[0]
+        c = to_fraction(e.decomposition_dict[leaf])
+        self.set_x(leaf, 0)
+        rest = self.expr(e)
+        self.set_x(leaf, (Fraction(target) - rest) / c)
+        return True
+
+
+class Combo(object):
+    """real composite member  sum_i w_i F_i  of differentiable members"""
+    differentiable = True
+
+    def __init__(self, parts):
+        self.parts = parts
+        self.dim = parts[0][1].dim
+
+    def val(self, x):
+        return sum((w * F.val(x) for w, F in self.parts), Fraction(0))
+
+    def grad(self, x):
+        g = [Fraction(0)] * self.dim
+        for w, F in self.parts:
+            g = vadd(g, vscal(w, F.grad(x)))
+        return g
+
+    def in_dom(self, x):
+        return True
+
+    def is_subgrad(self, x, g, tests):
+        return g == self.grad(x)
+
+    def as_quadratic(self):
+        n = self.dim
+        A = [[sum(w * F.A[i][j] for w, F in self.parts) for j in range(n)] for i in range(n)]
+        b = [sum(w * F.b[i] for w, F in self.parts) for i in range(n)]
+        return Quadratic(A, b, sum(w * F.c for w, F in self.parts))
+
+
+def propagate_samples(val, members, start):
+    """value the leaves created by oracle calls: for a differentiable member, the gradient / value leaf of a new
+    sample whose point is already valued is the real gradient / value there.  members: [(pepit function, real member)]"""
+    progress = True
+    while progress:
+        progress = False
+        for f, F in members:
+            for (x, g, v) in f.list_of_points[start[id(f)]:]:
+                if val.unknown_points(x):
+                    continue
+                xv = val.point(x)
+                if getattr(F, "differentiable", False) and len(val.unknown_points(g)) == 1:
+                    progress |= val.solve_point(g, F.grad(xv))
+                if len(val.unknown_exprs(v)) == 1 and F.in_dom(xv):
+                    progress |= val.solve_expr(v, F.val(xv))
+
+
+def check_records(val, members, start, cstart, tests):
+    """first-principles check of everything the step recorded; returns a description of the first failure"""
+    for f, F in members:
+        for idx, (x, g, v) in enumerate(f.list_of_points[start[id(f)]:]):
+            if val.unknown_points(x) or val.unknown_points(g) or not val.expr_ready(v):
+                return dict(kind="recorded-sample-has-an-unvalued-leaf", function=f.get_name(), sample=idx)
+            xv, gv, fv = val.point(x), val.point(g), val.expr(v)
+            if not F.in_dom(xv):
+                return dict(kind="recorded-point-outside-domain", function=f.get_name(), x=xv)
+            if fv != F.val(xv):
+                return dict(kind="recorded-value-is-not-the-function-value", function=f.get_name(), x=xv,
+                            recorded=fv, real=F.val(xv))
+            bad = subgradient_inequality(F, xv, gv, fv, tests + [xv])
+            if bad is not None:
+                return dict(kind="recorded-gradient-is-not-a-subgradient", function=f.get_name(), x=xv, g=gv,
+                            violating_point=bad)
+            if not F.is_subgrad(xv, gv, tests):
+                return dict(kind="recorded-gradient-is-not-a-subgradient", function=f.get_name(), x=xv, g=gv)
+        for idx, c in enumerate(f.list_of_constraints[cstart[id(f)]:]):
+            if not val.expr_ready(c.expression):
+                return dict(kind="recorded-constraint-has-an-unvalued-leaf", function=f.get_name(), constraint=idx)
+            cv = val.expr(c.expression)
+            ok = (cv == 0) if c.equality_or_inequality == "equality" else (cv <= 0)
+            if not ok:
+                return dict(kind="recorded-constraint-false-on-a-real-execution", function=f.get_name(),
+                            constraint=c.get_name(), value=cv, sense=c.equality_or_inequality)
+    return None
+
+
+def constraints_hold(val, fns, cstart):
+    for f in fns:
+        for c in f.list_of_constraints[cstart[id(f)]:]:
+            cv = val.expr(c.expression)
+            if not ((cv == 0) if c.equality_or_inequality == "equality" else (cv <= 0)):
+                return False
+    return True
+
+
+# ----------------------------------------------------------------------------- real executions, step by step
+def _dy(rng, lo=-4, hi=4, dens=(1, 2, 4)):
+    return Fraction(rng.randint(lo, hi), rng.choice(dens))
+
+
+def _members(rng, dim, kind, composite):
+    """-> (pepit function, real member, [(pepit fn, real member)] to check)"""
+    from PEPit import PEP
+    import PEPit.functions as PF
+    pep = _members.pep
+    if kind == "smooth":
+        if composite:
+            f1 = pep.declare_function(PF.SmoothStronglyConvexFunction, mu=0.125, L=64.)
+            f2 = pep.declare_function(PF.SmoothStronglyConvexFunction, mu=0.125, L=64.)
+            q1, q2 = rand_quadratic(rng, dim, True), rand_quadratic(rng, dim, True)
+            a, b = rng.choice([1, 2, 0.5]), rng.choice([1, 0.5, 4, 2])     # powers of two: the division by the last weight is exact
+            if rng.random() < 0.5:
+                f = a * f1 + b * f2
+            else:
+                f = f1 * a + f2 * b
+            F = Combo([(Fraction(a), q1), (Fraction(b), q2)])
+            return f, F, [(f, F), (f1, q1), (f2, q2)]
+        f = pep.declare_function(PF.SmoothStronglyConvexFunction, mu=0.125, L=64.)
+        q = rand_quadratic(rng, dim, True)
+        return f, q, [(f, q)]
+    if kind == "abs":
+        f = pep.declare_function(PF.ConvexFunction)
+        F = AbsSum(rng.choice([1, 2, Fraction(1, 2)]), dim)
+        return f, F, [(f, F)]
+    f = pep.declare_function(PF.ConvexIndicatorFunction, D=8.)
+    F = Box(rng.choice([-1, -2, 0]), rng.choice([1, 2, 3]), dim)
+    return f, F, [(f, F)]
+
+
+def _quad_of(F):
+    return F.as_quadratic() if isinstance(F, Combo) else F
+
+
+def semantic_trial(desc):
+    """run one real execution described by desc = {step, opt, seed, composite}; None if everything recorded is
+    satisfied (and tight where a tightness test exists), else a description of the failure"""
+    from PEPit import PEP, Point, Expression
+    rng = random.Random(desc["seed"])
+    name, opt, composite = desc["step"], desc.get("opt"), bool(desc.get("composite"))
+    dim = rng.choice([1, 2, 2])
+    pep = PEP()
+    _members.pep = pep
+    val = Valuation(dim)
+    leaves = [Point() for _ in range(3)]
+    for lf in leaves:
+        val.set_p(lf, [_dy(rng) for _ in range(dim)])
+
+    def pt():
+        return build_point(combo(rng, leaves, 2), leaves) if rng.random() < 0.7 else leaves[rng.randrange(3)]
+
+    tests = grid(dim, rng)
+    gamma = rng.choice([Fraction(1, 2), Fraction(1), Fraction(2), Fraction(1, 4)])
+    fl = float
+    members = []
+    step = step_fn(name)
+
+    def snapshot():
+        return ({id(f): len(f.list_of_points) for f, _ in members},
+                {id(f): len(f.list_of_constraints) for f, _ in members})
+
+    def finish(extra=None):
+        propagate_samples(val, members, start)
+        bad = check_records(val, members, start, cstart, tests)
+        if bad:
+            return bad
+        return extra
+
+    with warnings.catch_warnings():
+        warnings.simplefilter("ignore")
+        if name == "proximal_step":
+            kind = "smooth" if composite else rng.choice(["smooth", "abs", "box"])
+            f, F, members = _members(rng, dim, kind, composite)
+            x0 = pt()
+            x0v = val.point(x0)
+            start, cstart = snapshot()
+            x, gx, fx = step(x0, f, fl(gamma))
+            xr = _quad_of(F).prox(gamma, x0v) if kind == "smooth" else F.prox(gamma, x0v)
+            val.solve_point(gx, vscal(1 / gamma, vsub(x0v, xr)))
+            val.solve_expr(fx, F.val(xr))
+            if val.unknown_points(x):
+                val.solve_point(x, xr)
+            if not val.unknown_points(x) and val.point(x) != xr:
+                return dict(kind="returned-point-is-not-the-proximal-point", x0=x0v, gamma=gamma, real=xr,
+                            returned=val.point(x))
+            return finish()
+
+        if name == "linear_optimization_step":
+            f, F, members = _members(rng, dim, "box", False)
+            d = pt()
+            dv = val.point(d)
+            start, cstart = snapshot()
+            x, gx, fx = step(d, f)
+            xr = F.linopt(dv)
+            val.solve_point(x, xr)
+            val.solve_expr(fx, 0)
+            return finish()
+
+        if name == "inexact_gradient_step":
+            f, F, members = _members(rng, dim, "smooth", composite)
+            x0 = pt()
+            x0v = val.point(x0)
+            eps = rng.choice([Fraction(1, 2), Fraction(1), Fraction(3, 2), Fraction(2), Fraction(3)])
+            start, cstart = snapshot()
+            args = (x0, f, fl(gamma), fl(eps)) + ((opt,) if opt else ())
+            x, dx0, fx0 = step(*args)
+            notion = opt or "absolute"
+            g = F.grad(x0v)
+            theta = rng.choice([Fraction(1), Fraction(1), Fraction(1, 2), Fraction(-1), Fraction(0)])
+            if notion == "relative":
+                err = vscal(theta * eps, g)
+            else:
+                err = [theta * eps] + [Fraction(0)] * (dim - 1)
+            dr = vadd(g, err)
+            val.solve_point(dx0, dr)
+            propagate_samples(val, members, start)
+            if not val.unknown_points(x) and val.point(x) != vsub(x0v, vscal(gamma, dr)):
+                return dict(kind="returned-point-is-not-x0-minus-gamma-d", x0=x0v, d=dr, returned=val.point(x))
+            bad = finish()
+            if bad:
+                return bad
+            # tightness: a direction just outside the accuracy must violate what was recorded
+            bound = eps * eps * (dot(g, g) if notion == "relative" else 1)
+            over = [Fraction(0)] * dim
+            k = Fraction(1)
+            while True:       # rational vector with squared norm slightly above the bound
+                over = [k] + [Fraction(0)] * (dim - 1)
+                if k * k > bound and k * k <= bound + Fraction(1, 2) + bound / 4:
+                    break
+                k = k + Fraction(1, 4) if k * k <= bound else k - Fraction(1, 8)
+            old = val.p[id(dx0)] if not dx0.decomposition_dict or len(dx0.decomposition_dict) != 1 else None
+            leaf = list(dx0.decomposition_dict)[0]
+            keep = val.p[id(leaf)]
+            val.set_p(leaf, vadd(g, over))
+            if constraints_hold(val, [f], cstart):
+                return dict(kind="recorded-constraint-weaker-than-documented", step=name, notion=notion, eps=eps,
+                            error_sq=dot(over, over), bound=bound)
+            val.set_p(leaf, keep)
+            return None
+
+        if name == "exact_linesearch_step":
+            f, F, members = _members(rng, dim, "smooth", composite)
+            x0 = pt()
+            x0v = val.point(x0)
+            dirs = [pt() for _ in range(rng.randint(1, 3))]
+            dvs = [val.point(d) for d in dirs]
+            start, cstart = snapshot()
+            x, gx, fx = step(x0, f, dirs)
+            xr = _quad_of(F).linesearch(x0v, dvs)
+            if xr is None:
+                return None
+            val.solve_point(x, xr)
+            bad = finish()
+            if bad:
+                return bad
+            # tightness: the documented condition <grad f(x), x - x0> = 0 must be recorded as well.  Move x0 (when it
+            # is a single leaf not used by the directions) along the gradient: every <gx, d> = 0 still holds.
+            gxv = val.point(gx)
+            if dot(gxv, gxv) != 0 and len(x0.decomposition_dict) == 1 and \
+                    all(list(x0.decomposition_dict)[0] not in d.decomposition_dict for d in dirs):
+                leaf = list(x0.decomposition_dict)[0]
+                keep = val.p[id(leaf)]
+                val.set_p(leaf, vadd(keep, gxv))
+                moved = dot(gxv, vsub(val.point(x), val.point(x0))) != 0
+                if moved and constraints_hold(val, [f], cstart):
+                    return dict(kind="recorded-constraints-weaker-than-documented", step=name,
+                                missing="<gx, x - x0> = 0", gx=gxv)
+                val.set_p(leaf, keep)
+            return None
+
+        if name == "bregman_gradient_step":
+            h, H, members = _members(rng, dim, "smooth", composite)
+            gx0, sx0 = pt(), pt()
+            g0, s0 = val.point(gx0), val.point(sx0)
+            start, cstart = snapshot()
+            x, sx, hx = step(gx0, sx0, h, fl(gamma))
+            Hq = _quad_of(H)
+            xr = solve_linear(Hq.A, vsub(vsub(s0, vscal(gamma, g0)), Hq.b))     # grad H(xr) = s0 - gamma g0
+            val.solve_point(x, xr)
+            return finish()
+
+        if name == "bregman_proximal_step":
+            h, H, mh = _members(rng, dim, "smooth", False)
+            f, F, mf = _members(rng, dim, "smooth", composite)
+            members = mh + mf
+            sx0 = pt()
+            s0 = val.point(sx0)
+            start, cstart = snapshot()
+            x, sx, hx, gx, fx = step(sx0, h, f, fl(gamma))
+            Fq, Hq = _quad_of(F), _quad_of(H)
+            n = dim
+            M = [[gamma * Fq.A[i][j] + Hq.A[i][j] for j in range(n)] for i in range(n)]
+            xr = solve_linear(M, vsub(vsub(s0, vscal(gamma, Fq.b)), Hq.b))
+            val.solve_point(x, xr)
+            val.solve_point(gx, F.grad(xr))
+            return finish()
+
+        if name == "epsilon_subgradient_step":
+            f, F, members = _members(rng, dim, "smooth", composite)
+            x0 = pt()
+            x0v = val.point(x0)
+            start, cstart = snapshot()
+            x, g0, f0, epsv = step(x0, f, fl(gamma))
+            yr = [_dy(rng) for _ in range(dim)]
+            gr = F.grad(yr)
+            slack = rng.choice([Fraction(0), Fraction(0), Fraction(1, 2)])
+            er = F.val(x0v) + (dot(gr, yr) - F.val(yr)) - dot(gr, x0v) + slack
+            val.solve_point(g0, gr)
+            val.solve_expr(epsv, er)
+            # the recorded sample carrying g0 is at the point where the conjugate is attained
+            for (sx_, sg_, sv_) in f.list_of_points[start[id(f)]:]:
+                if sg_ is g0 and val.unknown_points(sx_):
+                    val.solve_point(sx_, yr)
+            bad = finish()
+            if bad:
+                return bad
+            if val.point(x) != vsub(x0v, vscal(gamma, gr)):
+                return dict(kind="returned-point-is-not-x0-minus-gamma-g0", returned=val.point(x))
+            for z in tests:       # g0 really is an eps-subgradient at x0
+                if F.val(z) < F.val(x0v) + dot(gr, vsub(z, x0v)) - er:
+                    return dict(kind="not-an-epsilon-subgradient", z=z)
+            if slack == 0:        # tightness: a smaller epsilon must violate what was recorded
+                leaf = list(epsv.decomposition_dict)[0]
+                val.set_x(leaf, er - Fraction(1, 8))
+                if constraints_hold(val, [f], cstart):
+                    return dict(kind="recorded-constraint-weaker-than-documented", step=name)
+                val.set_x(leaf, er)
+            return None
+
+        if name == "inexact_proximal_step":
+            f, F, members = _members(rng, dim, "smooth", composite)
+            x0 = pt()
+            x0v = val.point(x0)
+            start, cstart = snapshot()
+            args = (x0, f, fl(gamma)) + ((opt,) if opt else ())
+            x, gx, fx, w, v, fw, epsv = step(*args)
+            o = opt or "PD_gapII"
+            xr = [_dy(rng) for _ in range(dim)]
+            Fq = _quad_of(F)
+            if o == "PD_gapI":
+                wr = [_dy(rng) for _ in range(dim)]
+                vr = F.grad(wr)
+            elif o == "PD_gapII":
+                wr, vr = xr, F.grad(xr)
+            else:
+                vr = vscal(1 / gamma, vsub(x0v, xr))
+                wr = solve_linear(Fq.A, vsub(vr, Fq.b))
+            # the primal-dual gap of the docstring, with f*(v) = <v, w> - f(w)
+            phi_p = gamma * F.val(xr) + dot(vsub(xr, x0v), vsub(xr, x0v)) / 2
+            phi_d = -gamma * (dot(vr, wr) - F.val(wr)) - dot(vsub(x0v, vscal(gamma, vr)), vsub(x0v, vscal(gamma, vr))) / 2 \
+                + dot(x0v, x0v) / 2
+            slack = rng.choice([Fraction(0), Fraction(0), Fraction(1, 4)])
+            er = phi_p - phi_d + slack
+            val.solve_expr(epsv, er)
+            if o == "PD_gapI":
+                val.solve_point(x, xr)
+                val.solve_point(w, wr)
+                val.solve_point(v, vr)
+                val.solve_point(gx, F.grad(xr))
+            elif o == "PD_gapII":
+                val.solve_point(gx, F.grad(xr))
+                val.solve_point(x, xr)            # determines the error leaf e
+            else:
+                val.solve_point(x, xr)
+                val.solve_point(w, wr)
+                val.solve_point(gx, F.grad(xr))
+            bad = finish()
+            if bad:
+                return bad
+            if val.point(x) != xr or val.point(v) != vr or val.point(w) != wr:
+                return dict(kind="returned-objects-are-not-the-real-ones", option=o)
+            if slack == 0 and len(epsv.decomposition_dict) == 1:
+                leaf = list(epsv.decomposition_dict)[0]
+                val.set_x(leaf, er - Fraction(1, 8))
+                if constraints_hold(val, [f], cstart):
+                    return dict(kind="recorded-constraint-weaker-than-documented", step=name, option=o)
+                val.set_x(leaf, er)
+            return None
+    raise KeyError(name)
